@@ -23,6 +23,7 @@ class Tracer:
         self.events, self.rate, self.rnd, self.cap = [], rate, random.Random(seed), cap
         self.calls = self.inner_raised = self.foreign = 0
         self.active = None
+        self._outs = []
         self.installed = False
 
     # -------------------------------------------------------------- helpers
@@ -31,12 +32,45 @@ class Tracer:
         if dt.kind == "b":
             return "b1"
         if dt.kind in "iu":
-            return "int"
+            return "int" if dt.kind == "i" else "uint"
         if dt.kind == "f":
             return {2: "f2", 4: "f4", 8: "f8"}.get(dt.itemsize, "f16")
         if dt.kind == "c":
             return {8: "c8", 16: "c16"}.get(dt.itemsize, "c32")
         return "obj" if dt.kind == "O" else "other"
+
+    def _loop_kinds(self, ufunc, method, inputs, outs, kwargs):
+        none = ["-"] * len(outs)
+        if method != "__call__" or ufunc.signature is not None or not any(o is not None for o in outs):
+            return none
+        if any(k in kwargs for k in ("casting", "dtype", "signature", "sig")):
+            return none
+        dts = []
+        for x in inputs:
+            if isinstance(x, self.pb.Signal):
+                x = x.data
+            if type(x) in (bool, int, float, complex):
+                dts.append(type(x))
+            elif type(x) is np.ndarray or isinstance(x, np.generic):
+                dts.append(x.dtype)
+            elif type(x).__module__.startswith("dask") and hasattr(x, "dtype") and not any(
+                    isinstance(getattr(o, "data", o), np.ndarray) for o in outs if o is not None):
+                dts.append(x.dtype)
+            else:
+                return none           # Quantity, list, dask into NumPy ...: no statement
+        try:
+            res = ufunc.resolve_dtypes(tuple(dts) + (None,) * ufunc.nout)
+        except Exception:
+            return none
+        ks = [self._dk(d) for d in res[ufunc.nin:]]
+        return [k if k not in ("obj", "other") else "-" for k in ks]
+
+    def _is_cast_error(self, e):
+        try:
+            from numpy._core._exceptions import _UFuncOutputCastingError
+            return isinstance(e, _UFuncOutputCastingError)
+        except ImportError:
+            return isinstance(e, TypeError) and "Cannot cast ufunc" in str(e) and "output" in str(e)
 
     def _meta(self, s):
         import common
@@ -71,13 +105,17 @@ class Tracer:
 
         def describe(x):
             if isinstance(x, pb.Signal):
-                return {"kind": "sig", "cls": type(x).__name__, "dk": tr._dk(x.dtype)}
+                # dk: dtype of the buffer a result would be stored into; "-" for dask data (no casting rule)
+                dk = tr._dk(x.dtype)
+                if any(o is x for o in tr._outs) and (not isinstance(x.data, np.ndarray) or dk in ("obj", "other")):
+                    dk = "-"
+                return {"kind": "sig", "cls": type(x).__name__, "dk": dk}
             if isinstance(x, u.Quantity):
                 return {"kind": "qty", "cls": "-", "dk": "-"}
             if isinstance(x, da.Array):
                 return {"kind": "dask", "cls": "-", "dk": "-"}
             if type(x) is np.ndarray:
-                return {"kind": "arr", "cls": "-", "dk": "-"}
+                return {"kind": "arr", "cls": "-", "dk": tr._dk(x.dtype) if tr._dk(x.dtype) not in ("obj", "other") else "-"}
             return {"kind": "scal", "cls": "-", "dk": "-"}
 
         def wrapper(self, ufunc, method, *inputs, out=None, **kwargs):
@@ -98,6 +136,7 @@ class Tracer:
                 return idx[id(x)]
             ins_i = [ref(x) for x in inputs]
             outs_i = [ref(x) for x in outs]
+            tr._outs = [x for x in outs if x is not None]
             if any(isinstance(x, pb.Signal) and type(x).__name__ not in SIGCLS for x in objs):
                 tr.foreign += 1
                 return orig(self, ufunc, method, *inputs, out=out, **kwargs)
@@ -106,6 +145,9 @@ class Tracer:
                   "matmul": ufunc is np.matmul, "m": "call" if method == "__call__" else method,
                   "objs": [describe(x) for x in objs], "ins": ins_i, "outs": outs_i, "self": idx[id(self)],
                   "rk": [], "res": []}
+            # dtype the loop computes for every slot that has an out object (NumPy's own type resolution);
+            # "-" = no statement (foreign operand kinds, explicit casting= / dtype= / signature=)
+            ev["ork"] = tr._loop_kinds(ufunc, method, inputs, outs, kwargs)
             tr.active = {"rk": [], "like_err": None}
             try:
                 res = orig(self, ufunc, method, *inputs, out=out, **kwargs)
@@ -113,6 +155,8 @@ class Tracer:
                 a = tr.active
                 if a["like_err"] == "ValueError":
                     ev["result"] = "ValueError"
+                elif tr._is_cast_error(e) and not a["rk"]:
+                    ev["result"] = "UFuncTypeError"       # the inner call refused to store into an out array
                 else:
                     ev["result"] = "inner:" + type(e).__name__
                 self_rk = a["rk"]
@@ -147,8 +191,8 @@ class Tracer:
             return
         # dtype of the inner result per output: "-" where an out object was given, else in order of like() calls
         rk, it = [], iter(likes)
-        for o in outs_i:
-            rk.append("-" if o else next(it, "f8"))
+        for k, o in enumerate(outs_i):
+            rk.append((ev["ork"][k] if k < len(ev["ork"]) else "-") if o else next(it, "f8"))
         ev["rk"] = rk
         ev["id"] = len(self.events) + 1
         self.events.append(ev)
@@ -208,7 +252,7 @@ def run(chk, rnd, stats, thorough, repo_job=None):
         e["id"] = i + 1
     if not events:
         return
-    rejected, n = trace_util.validate("Trace_Ufunc", events, batch=4000, timeout=900, chk=chk, name="ufunc")
+    rejected, n = trace_util.validate("Trace_Ufunc", events, batch=4000, timeout=900, chk=chk, name="ufunc", heap="2g")
     chk.validated += n
     stats["trace_events_validated"] = n
     by = {}
@@ -262,7 +306,7 @@ def replay(doc):
     if not evs:
         print("case passes (no event produced)")
         return 0
-    rejected, n = trace_util.validate("Trace_Ufunc", evs, timeout=300)
+    rejected, n = trace_util.validate("Trace_Ufunc", evs, timeout=300, heap="2g")
     for ev, failed in rejected:
         print("VIOLATION property=C17 replay=(this case)  # trace:%s" % "+".join(sorted(failed)))
     if not rejected:
